@@ -30,7 +30,7 @@ pub fn run_c11(args: &Args) -> Report {
     let mut rep = Report::new("C11", "M8", &args.replay_dir);
     let model = Model::new(&args.model, &args.work);
     let mut rng = Rng::new(args.seed.wrapping_mul(1000).wrapping_add(args.shard as u64).wrapping_add(0xC11));
-    let total = if args.thorough() { 12000 } else { 480 };
+    let total = if args.thorough() { 6000 } else { 480 };
     let n = total / args.shards.max(1);
     rep.rule = "generated directory trees (depth <= 3; sources of the shapes foo.ext.txtpp, foo.txtpp.ext, foo.txtpp, foo.min.js.txtpp, foo.bar.txtpp.ext; look-alikes `txtpp`, `.txtpp`, `a.txtpp.b.c`, `a.txtpp~`, `a.txt`) x input lists (`.`, directories, sources by source name or by output name, `./x`, `dir/../x`, absolute paths, duplicates, missing targets, look-alikes) x recursive on/off x build/clean, base directory different from the process cwd. Oracle (independent restatement of the rule in the harness): on success the set of outputs that exist afterwards = outputs of {named sources} + {sources directly in named directories} + (recursive: in all sub-directories) + (build: their transitive .txtpp dependencies); each output beside its source under the documented name; a named target without source is an error. Also compared with the model.".to_string();
     let mut runner = Runner::new(args, "c11");
